@@ -287,10 +287,13 @@ def index_ptr(ex, base, idx, stride, count, elem, pos, what):
             idx = idx.as_long()
     if is_term(idx):
         if z3.is_bv(idx):
-            inb = z3.ULT(idx, z3.BitVecVal(count, idx.size())) if not is_term(count) else z3.ULT(idx, count)
+            if not is_term(count) and count >= (1 << idx.size()):
+                inb = True
+            else:
+                inb = z3.ULT(idx, z3.BitVecVal(count, idx.size())) if not is_term(count) else z3.ULT(idx, count)
         else:
             inb = z3.And(idx >= 0, idx < count)
-        inb = simp_bool(inb)
+        inb = simp_bool(inb) if not isinstance(inb, bool) else inb
         ex.panic_if(b_not(inb), "index out of range (%s)" % what, pos)
         if is_term(count):
             raise Unsupported("symbolic index with symbolic length")
@@ -340,6 +343,9 @@ def i_index(ex, fr, ins):
     x = ex.val(fr, ins["x"])
     idx = ex.val(fr, ins["index"])
     xd = p.under(ins["xt"])
+    dom = getattr(x, "dom", None)
+    if dom is not None and hasattr(dom, "limb") and not is_term(idx):
+        return dom.limb(x, idx, ex.ctx)
     if xd["kind"] == "array":
         elem = xd["elem"]
         st = p.ncells(elem)
